@@ -26,7 +26,7 @@ ASSUMPTIONS = [
     "OrderedDict counts as dict; PyVarBind (a tuple subclass) and BulkResult are the documented containers",
 ]
 PROBES = ["timeticks", "ipaddress", "oid_value", "counter64", "opaque", "exception_marker", "bulkget_keys", "table_rows",
-          "multiset_keys", "v1", "v3", "sparse_table", "set_confirmed_differently"]
+          "multiset_keys", "v1", "v3", "sparse_table", "set_confirmed_differently", "stalling_agent_walk", "reordered_set_response"]
 shrink_lists = [("mib",)]
 OPS = ["get", "getnext", "multiget", "set", "multiset", "walk", "multiwalk", "bulkwalk", "bulkget", "table", "bulktable"]
 BASE = (1, 3, 6, 1, 2, 1, 7)
@@ -71,6 +71,8 @@ def plan_for(tier: str, seed: int, i: int) -> dict:
                                    for o in rng.sample(keys, min(len(keys), rng.randrange(1, 4)))]}
     elif opk == "walk":
         op = {"op": opk, "root": BASE + (1, rng.choice([1, 2]))}
+        if rng.random() < 0.4:
+            op["errors"] = rng.choice(["warn", "strict"])
     elif opk == "multiwalk":
         op = {"op": opk, "roots": [BASE + (1, 1), BASE + (1, 2)]}
     elif opk == "bulkwalk":
@@ -83,10 +85,17 @@ def plan_for(tier: str, seed: int, i: int) -> dict:
     else:
         op = {"op": opk, "oid": BASE, "bulk": rng.choice([1, 3, 10])}
     # the agent may confirm a SET with the value it actually stored (normalised), not the one it was sent
-    return {"prop": ID, "proto": proto, "mib": sorted(mib.items()), "op": op, "normalise": rng.random() < 0.5}
+    # peer misbehaviour the raw client copes with; the wrapper must cope identically:
+    #  - "stall": one GETNEXT answer repeats the requested OID (walks: strict mode raises, lenient mode ends the walk)
+    #  - "reorder": the bindings of a SET response come back in another order than requested
+    quirk = rng.choice([None, None, None, "stall", "reorder"])
+    return {"prop": ID, "proto": proto, "mib": sorted(mib.items()), "op": op, "normalise": rng.random() < 0.5,
+            "quirk": quirk}
 
 
 def simplify(plan: dict):
+    if plan.get("quirk"):
+        p = dict(plan); p["quirk"] = None; yield p
     if plan["proto"]["version"] != "v2c":
         p = dict(plan); p["proto"] = {"version": "v2c", "community": "public"}; yield p
 
@@ -167,6 +176,22 @@ def _run(plan: dict, pythonic: bool) -> dict:
     agent = w.add_agent(agent_for(plan["proto"], dict(plan["mib"])))
     if plan.get("normalise"):
         agent.set_normalise = _normalise_set
+    if plan.get("quirk") == "stall":
+        keys = sorted(o for o, _ in plan["mib"])
+        stall_at = keys[len(keys) // 2]
+
+        def succ(oid: tuple, rep: int, req: dict) -> Any:
+            nxt = agent.successor(oid, req["version"])
+            if oid == stall_at and req["pdu"]["tag"] == S.PDU_GETNEXT:
+                return (oid, agent.mib[oid])
+            return (oid, ("eom", None)) if nxt is None else (nxt, agent.mib[nxt])
+        agent.successor_fn = succ
+    elif plan.get("quirk") == "reorder":
+        def hook_pdu(req: dict, resp: dict) -> Any:
+            if req["pdu"]["tag"] == S.PDU_SET and resp["es"] == 0:
+                return dict(resp, vbs=sorted(resp["vbs"], reverse=True))
+            return resp
+        agent.hook_pdu = hook_pdu
     client = w.client(plan["proto"], timeout=1, retries=1)
     res = exc = None
 
@@ -220,6 +245,8 @@ def execute(plan: dict) -> dict:
         "bulkget_keys": int(opk == "bulkget" and a["exc"] is None), "table_rows": int(opk in ("table", "bulktable") and bool(a["res"])),
         "multiset_keys": int(opk == "multiset" and a["exc"] is None),
         "v1": int(plan["proto"]["version"] == "v1"), "v3": int(plan["proto"]["version"] == "v3"),
+        "stalling_agent_walk": int(plan.get("quirk") == "stall" and opk in ("walk", "multiwalk", "table")),
+        "reordered_set_response": int(plan.get("quirk") == "reorder" and opk == "multiset" and a["exc"] is None),
         "sparse_table": int(opk in ("table", "bulktable") and a["exc"] is None and len(set(len(r) for r in a["res"])) > 1),
         "set_confirmed_differently": int(opk in ("set", "multiset") and a["exc"] is None and bool(plan.get("normalise"))
                                          and _set_differs(plan["op"], b["res"])),
